@@ -69,6 +69,7 @@ theorem decode_lpc (cfg : SubCfg) (xs : List Int) (bps : Nat) (log : List OEvent
     (hlog : ∀ e ∈ log, e.Ok) (hs : Strict.LpcShape cfg xs bps log s) : decodeSubframe false s = .ok xs := by
   obtain ⟨coefs, shift, precision, errors, prc, hmem, hce, hsearch, rfl⟩ := hs
   obtain ⟨hc1, hc32, hp1, hp15, hs0, hs15, hcr⟩ := hlog _ hmem
+  replace hc32 : coefs.length ≤ 32 := by unfold maxLpcOrder at hc32; omega
   obtain ⟨hel, hef, hed⟩ := computeError_wrap coefs shift.toNat xs errors hce
   obtain ⟨herr, h15, hpl, hdvd, hw, hp⟩ := Strict.search_space errors coefs.length cfg.maxP prc hef
     (by rw [hel]; omega) (by rw [hel]; exact hlen) hmax hsearch
